@@ -169,11 +169,11 @@ def _orphan_child(index, target, args, kwargs, orphan, rec):
 
 @contextlib.contextmanager
 def orphan_writes_during_cleanup(stage, crash, writer, hook,
-                                 dir_prefix='results_buffer_'):
+                                 root=None):
     """Forced interleaving: worker `crash` exits with code 3 before its work;
     the surviving sibling `writer` publishes its result exactly when the
-    parent, cleaning up after the failure, has listed the directory
-    `dir_prefix*` and is about to `rmdir` it.  The real clean-up code runs
+    parent, cleaning up after the failure, has listed the first directory
+    under `root` it removes and is about to `rmdir` it.  The real clean-up code runs
     unmodified; `pathlib.Path.rmdir` is only delayed until the sibling has
     written.  Yields the Record (`rec.forced` tells whether the interleaving
     was actually produced)."""
@@ -185,7 +185,11 @@ def orphan_writes_during_cleanup(stage, crash, writer, hook,
     state = {'forced': False}
 
     def rmdir(self):
-        if self.name.startswith(dir_prefix) and not state['forced']:
+        # the first directory removed under the stage's scratch root: the
+        # clean-up works depth first, so this is the innermost buffer
+        # directory the workers write into (whatever it is called)
+        under = root is None or str(self).startswith(str(root))
+        if under and not state['forced']:
             state['forced'] = True
             os.write(go[1], b'x')
             _wait_byte(done[0], 5)
@@ -245,7 +249,22 @@ def instrument(stage, plan):
     """route the stage's workers through `_child_entry` with `plan`"""
     mod_name, attr = stage.worker
     mod = importlib.import_module(mod_name)
-    worker_fn = getattr(mod, attr)
+    worker_fn = getattr(mod, attr, None)
+    if worker_fn is None:
+        # the worker function was renamed: take the (only) function this
+        # module hands to Process(target=...)
+        import ast
+        import inspect
+        names = set()
+        for n in ast.walk(ast.parse(inspect.getsource(mod))):
+            if isinstance(n, ast.Call):
+                for k in n.keywords:
+                    if k.arg == 'target' and isinstance(k.value, ast.Name):
+                        names.add(k.value.id)
+        if len(names) != 1:
+            raise AttributeError('%s has no %s and %d Process targets'
+                                 % (mod_name, attr, len(names)))
+        worker_fn = getattr(mod, names.pop())
     real = mod.multiprocessing
     flag_dir = tempfile.mkdtemp(
         dir='/dev/shm' if os.path.isdir('/dev/shm') else None,
